@@ -244,6 +244,19 @@ where
             let seed = mix64(ctx.seed ^ hash_str(&ctx.id) ^ hash_str(label).rotate_left(17) ^ ((t as u64) << 48));
             scope.spawn(move || {
                 let mut local = Stats::new();
+                // safety net: a panic escaping a checker (e.g. the library panicking inside a generator's
+                // feedback call) is reported as a violation of this property instead of killing the process
+                let id = ctx.id.clone();
+                let check = move |c: &C, st: &mut Stats| -> Result<(), Violation> {
+                    match catch(|| check(c, st)) {
+                        Ok(r) => r,
+                        Err(p) => Err(Violation {
+                            signature: format!("{id}:panic-outside-oracle"),
+                            message: format!("panic while generating/checking a case: {p}"),
+                            case: json!({"prop": id, "debug": format!("{:?}", c)}),
+                        }),
+                    }
+                };
                 let config = Config {
                     cases: n,
                     failure_persistence: None,
@@ -339,8 +352,14 @@ where
                     }
                     let lo = (total as u128 * c as u128 / nchunks as u128) as u64;
                     let hi = (total as u128 * (c + 1) as u128 / nchunks as u128) as u64;
-                    if let Some(v) = work(lo, hi, &mut local) {
-                        viols.push(v);
+                    match catch(|| work(lo, hi, &mut local)) {
+                        Ok(Some(v)) => viols.push(v),
+                        Ok(None) => {}
+                        Err(p) => viols.push(Violation {
+                            signature: "panic-in-sweep".into(),
+                            message: format!("panic inside an enumeration block [{lo},{hi}): {p}"),
+                            case: json!({"block": [lo, hi]}),
+                        }),
                     }
                 }
                 results.lock().unwrap().push((local, viols));
